@@ -13,8 +13,9 @@ package shimagent
 //@ protected exclusive Server.agent, Server.conn by Server.mu
 
 //@ ghost func inv(s *Server) bool = s.agent != nil && s.conn != nil && s.certs != nil && s.upstreamSSHCACertCache != nil
-//@ # table invariants: in-memory entries are objects; with the no-upstream mode off the cache of hidden upstream certificates stays empty
-//@ ghost func certsNonNil(s *Server) bool = forall(h#bytes, h in dom(s.certs), s.certs[h] != nil)
+//@ # table invariants: in-memory entries are objects stored under the hash of their own blob; with the no-upstream mode off the cache of hidden upstream certificates stays empty
+//@ ghost func cblob(c *certificate) int = contentOf(elems(c.Blob), off(c.Blob), len(c.Blob))
+//@ ghost func certsNonNil(s *Server) bool = forall(h#bytes, h in dom(s.certs), s.certs[h] != nil && h == sha(cblob(s.certs[h])))
 //@ ghost func cacheOff(s *Server) bool = !s.noUpstreamSSHCACert ==> mapdom(s.upstreamSSHCACertCache) == nokeys(s.upstreamSSHCACertCache)
 //@ ghost func inv2(s *Server) bool = certsNonNil(s) && cacheOff(s)
 //@ ghost func condsOK(s *Server) bool = forall(i, 0 <= i && i < 40, s.conds[i] != nil && s.conds[i].L != nil && mstate(pl(s.conds[i].L)) == 0)
@@ -267,7 +268,6 @@ package shimagent
 //@ ghost func akBlob(k *agent.Key) int = contentOf(elems(k.Blob), off(k.Blob), len(k.Blob))
 //@ ghost func hiddenBlob(b int) bool = certBlob(b) && parseOKid(b) && keyid.decOK(certKeyId(b))
 
-//@ ghost func cblob(c *certificate) int = contentOf(elems(c.Blob), off(c.Blob), len(c.Blob))
 //@ func marshalAgentKey(key)
 //@   requires key != nil && pl(key) != 0
 //@   ensures result != nil
@@ -290,7 +290,7 @@ package shimagent
 //@   ensures [success-after-purge] (!old(s.locked) && ret(filter, f0, 2) == nil) ==> result1 == nil
 //@   ensures [no-hidden-upstream-certificate-is-listed] (!old(s.locked) && ret(filter, f0, 2) == nil) ==>
 //@     forall(i, 0 <= i && i < len(result0), result0[i] != nil &&
-//@       ((s.noUpstreamSSHCACert && hiddenBlob(akBlob(result0[i]))) ==> exists(h#bytes, h in dom(s.certs), akBlob(result0[i]) == blobid(asKey(s.certs[h])))))
+//@       ((s.noUpstreamSSHCACert && hiddenBlob(akBlob(result0[i]))) ==> (sha(akBlob(result0[i])) in dom(s.certs))))
 //@   loop 1:
 //@     invariant wheld(s) && inv(s) && !old(s.locked)
 //@     invariant calls(filter) == f0 + 1 && arg(filter, f0, 0) == s && ret(filter, f0, 2) == nil && err == nil
@@ -298,8 +298,8 @@ package shimagent
 //@     invariant cacheOff(s) && allocated(arr(keysInAgent)) && (keys == nil || (fresh(arr(keys)) && arr(keys) != arr(keysInAgent)))
 //@     invariant certsNonNil(s)
 //@     invariant forall(j, 0 <= j && j < len(keysInAgent), keysInAgent[j] != nil && akBlob(keysInAgent[j]) == blobid(asKey(keysInAgent[j])))
-//@     invariant forall(i, 0 <= i && i < len(keys), keys[i] != nil && exists(h#bytes, h in dom(s.certs), akBlob(keys[i]) == blobid(asKey(s.certs[h]))))
-//@     invariant forall(h#bytes, visited(h), exists(i, 0 <= i && i < len(keys), akBlob(keys[i]) == blobid(asKey(s.certs[h]))))
+//@     invariant forall(i, 0 <= i && i < len(keys), keys[i] != nil && (sha(akBlob(keys[i])) in dom(s.certs)))
+//@     invariant forall(h#bytes, visited(h), exists(i, 0 <= i && i < len(keys), akBlob(keys[i]) == cblob(s.certs[h])))
 //@   loop 2:
 //@     invariant wheld(s) && inv(s) && !old(s.locked)
 //@     invariant calls(filter) == f0 + 1 && arg(filter, f0, 0) == s && ret(filter, f0, 2) == nil && err == nil
@@ -309,12 +309,12 @@ package shimagent
 //@     invariant certsNonNil(s)
 //@     invariant forall(j, 0 <= j && j < len(keysInAgent), keysInAgent[j] != nil && akBlob(keysInAgent[j]) == blobid(asKey(keysInAgent[j])))
 //@     invariant [no-hidden-upstream-certificate-is-listed] forall(i, 0 <= i && i < len(keys), keys[i] != nil &&
-//@       ((s.noUpstreamSSHCACert && hiddenBlob(akBlob(keys[i]))) ==> exists(h#bytes, h in dom(s.certs), akBlob(keys[i]) == blobid(asKey(s.certs[h])))))
+//@       ((s.noUpstreamSSHCACert && hiddenBlob(akBlob(keys[i]))) ==> (sha(akBlob(keys[i])) in dom(s.certs))))
 //@     invariant [visible-upstream-identities-stay-listed] forall(j, 0 <= j && j <= rangeindex,
 //@       (!(certBlob(blobid(asKey(keysInAgent[j]))) && parseOKid(blobid(asKey(keysInAgent[j])))) ||
 //@        (!(sha(blobid(asKey(keysInAgent[j]))) in dom(s.upstreamSSHCACertCache)) && !(s.noUpstreamSSHCACert && hiddenBlob(blobid(asKey(keysInAgent[j])))))) ==>
 //@       exists(i, 0 <= i && i < len(keys), keys[i] == keysInAgent[j] || akBlob(keys[i]) == blobid(asKey(keysInAgent[j]))))
-//@     invariant [in-memory-certificates-stay-listed] forall(h#bytes, h in dom(s.certs), exists(i, 0 <= i && i < len(keys), akBlob(keys[i]) == blobid(asKey(s.certs[h]))))
+//@     invariant [in-memory-certificates-stay-listed] forall(h#bytes, h in dom(s.certs), exists(i, 0 <= i && i < len(keys), akBlob(keys[i]) == cblob(s.certs[h])))
 
 //@ # ---------------------------------------------------------------- Signers: the same purge and the same hiding rule as List
 //@ ghost func hiddenKey(k ssh.PublicKey) bool = keyutil.castable(k) && keyid.decOK(keyutil.keyIdOfKey(k))
